@@ -12,6 +12,7 @@ B/C. Generated storage-schemas.conf / storage-aggregation.conf files (1-6 sectio
 """
 import itertools
 import os
+import shutil
 import random
 
 from . import env, tlc
@@ -157,7 +158,8 @@ def run(ctx):
           fh.write('\n')
       with open(os.path.join(conf, 'storage-aggregation.conf'), 'w') as fh:
         for i, a in enumerate(agg):
-          fh.write('[agg%d]\n' % i)
+          # half of the files reuse the section names of storage-schemas.conf, in another order (section names are labels only)
+          fh.write('[%s]\n' % (('sec%d' % (len(agg) - 1 - i)) if len(recs) % 2 else ('agg%d' % i)))
           if a['haspat']:
             fh.write('pattern = %s\n' % render_pat(a['pat']))
           if a['xff'] >= 0:
@@ -171,7 +173,21 @@ def run(ctx):
         os.utime(os.path.join(conf, fn), (1000.0, 1000.0))
       if not agg and len(recs) % 2:
         os.unlink(os.path.join(conf, 'storage-aggregation.conf'))      # the optional file is removed
-      db = DB()
+      use_whisper = (len(recs) % 3 == 1)
+      if use_whisper:
+        # the real WhisperDatabase plugin over the stand-in whisper module: what create() hands to whisper.create()
+        import carbon.database as cdb
+        import whisper as wstub
+        del wstub.created[:]
+        wroot = os.path.join(ctx.scratch, 'c19data')
+        shutil.rmtree(wroot, ignore_errors=True)
+        os.makedirs(wroot, exist_ok=True)
+        settings['LOCAL_DATA_DIR'] = wroot
+        for kk in ('WHISPER_AUTOFLUSH', 'WHISPER_SPARSE_CREATE', 'WHISPER_FALLOCATE_CREATE', 'WHISPER_LOCK_WRITES', 'WHISPER_FADVISE_RANDOM'):
+          settings[kk] = False
+        db = cdb.WhisperDatabase(settings)
+      else:
+        db = DB()
       state.database = db
       writer.reloadStorageSchemas()
       writer.reloadAggregationSchemas()
@@ -182,6 +198,8 @@ def run(ctx):
       writer.writeCachedDataPoints()
       cache._Cache = None
       obs = dict(created=0, rets=[], xff=-1, method=0)
+      if use_whisper:
+        db.created = [(name if p.endswith('.wsp') else '?', al, xf, me) for (p, al, xf, me) in wstub.created]
       if db.created:
         m, rets, xff, method = db.created[0]
         obs = dict(created=1 if m == name and len(db.created) == 1 else 0, rets=[[int(a), int(b)] for a, b in rets],
